@@ -232,10 +232,10 @@ def run(ctx):
             t["order"] = o
         cases.append(c)
     # random: 1-5 taskers, with bids
-    for i in range(ctx.pick(150, 1500)):
+    for i in range(ctx.pick(150, 8000)):
         Pstr = rng.choice(TICKS)
         n = rng.randint(1, 5)
-        nt = rng.randint(10, ctx.pick(30, 60))
+        nt = rng.randint(10, ctx.pick(30, 100))
         bid = None
         r = rng.random()
         if r < 0.4:
@@ -251,7 +251,7 @@ def run(ctx):
         cases.append(c)
     nshards = 16
     jobs = [{"cases": cases[i::nshards]} for i in range(nshards)]
-    ctx.shard(jobs, timeout=ctx.pick(120, 600))
+    ctx.shard(jobs, timeout=ctx.pick(120, 1500))
     ctx.floor("runs_checked", 1000)
     ctx.floor("non_multiple_periods", 1)
     ctx.floor("bids_observed", 1)
